@@ -14,6 +14,9 @@ structure St where
   saved : List (Nat × Bytes × Node × Bool) := []   -- version, root, tree, superseded? of every saved round (oldest first)
   kind0 : String := "level"                    -- store kind of the block trie: level | mem | pndb
   snaps : List (Nat × Trie) := []              -- op `snap`: the trie value at that moment (a change set taken from it)
+  dirty : List Nat := []                        -- tries with at least one successful write since they were opened
+  stale : List Nat := []                        -- tries with an ancestor that wrote after they were opened (see `step`)
+  snapDirty : List Nat := []                    -- tries that were dirty when their change set was taken (`snap`)
   flag : String := ""                          -- self-check failures of the driver's fast paths (appended to the next output line)
   fast0 : Option (List (Bytes × Bytes) × List Bytes) := none   -- the block trie's pending (key, encoding) pairs and dead keys as computed by `bulkClosed` (valid until the next op on it)
 
@@ -457,15 +460,61 @@ def step1 (s : St) (w : List String) : St × String :=
   | ["pstore"] => (s, pstoreLine s)
   | _ => (s, "bad-op")
 
-/-- `fast0` survives only ops that do not touch the block trie -/
+/-- trie `id` executed a successful write (own operation, accepted merge of `except` into it, MergeDB): every open
+    descendant is stale from now on, except the child whose accepted merge this is (same rule as the Go runner) -/
+def markWrote (s : St) (id : Nat) (except : Option Nat) : St :=
+  { s with dirty := id :: s.dirty, stale := s.stale ++ (descendants s id).filter (fun d => some d ≠ except) }
+
+/-- Staleness is tracked at execution time, identically in the Go runner: reads and writes through a stale trie are
+    outside C03 (only its merge must be rejected) and are answered with a fixed token, not executed.
+    `fast0` survives only ops that do not touch the block trie. -/
 def step (s : St) (w : List String) : St × String :=
-  let r := step1 s w
-  let r := if r.1.flag = "" then r else ({ r.1 with flag := "" }, r.2 ++ r.1.flag)
+  let isStale := match w with
+    | _ :: id :: _ => s.stale.contains id.toNat!
+    | _ => false
   match w.head? with
+  | none => step1 s w
   | some h =>
-    if ["bulk", "light", "observe", "get", "getv", "iter", "pstore", "reopen", "prune", "crash-prune"].contains h then r
-    else ({ r.1 with fast0 := none }, r.2)
-  | none => r
+    if isStale && ["get", "getv", "iter", "observe"].contains h then (s, "stale-read")
+    else if isStale && ["ins", "del", "bulk", "syncinto"].contains h then (s, "stale-write")
+    else
+      let r := step1 s w
+      let r := if r.1.flag = "" then r else ({ r.1 with flag := "" }, r.2 ++ r.1.flag)
+      let r := if ["bulk", "light", "observe", "get", "getv", "iter", "pstore", "reopen", "prune", "crash-prune"].contains h then r
+               else ({ r.1 with fast0 := none }, r.2)
+      let ok := r.2.startsWith "ok"
+      let idOf : Nat := match w with | _ :: id :: _ => id.toNat! | _ => 0
+      let s' := r.1
+      let s' :=
+        match h with
+        | "round" => { s' with dirty := [], stale := [], snapDirty := [] }
+        | "ins" => if ok then markWrote s' idOf none else s'
+        | "del" => if ok then markWrote s' idOf none else s'
+        | "bulk" => if r.2 = "bad-op" then s' else markWrote s' idOf none
+        | "syncinto" => if r.2 = "bad-op" then s' else markWrote s' idOf none
+        | "syncfrom" => if r.2 = "bad-op" then s' else markWrote s' 0 none
+        | "child" =>
+          if ok then
+            let pid := match w with | [_, _, pid] => pid.toNat! | _ => 0
+            let s2 := { s' with dirty := s'.dirty.filter (· ≠ idOf), stale := s'.stale.filter (· ≠ idOf), snapDirty := s'.snapDirty.filter (· ≠ idOf) }
+            if s.stale.contains pid then { s2 with stale := idOf :: s2.stale } else s2
+          else s'
+        | "snap" => if ok && s.dirty.contains idOf then { s' with snapDirty := idOf :: s'.snapDirty } else
+                    if ok then { s' with snapDirty := s'.snapDirty.filter (· ≠ idOf) } else s'
+        | "merge" =>
+          if ok && s.dirty.contains idOf then
+            match findTrie s idOf with
+            | some (pid, _) => markWrote s' pid (some idOf)
+            | none => s'
+          else s'
+        | "mergesnap" =>
+          if ok && s.snapDirty.contains idOf then
+            match findTrie s idOf with
+            | some (pid, _) => markWrote s' pid none
+            | none => s'
+          else s'
+        | _ => s'
+      (s', r.2)
 
 def main : IO Unit := loop ({} : St) step
 
